@@ -245,31 +245,34 @@ func (a Attr) UnmarshalToType(data []byte) (any, error) {
 			v = v.(int)
 		}
 	case AttrTypeInt8:
-		v, err = strconv.Atoi(string(data))
+		var i int64
+		i, err = strconv.ParseInt(string(data), 10, 8)
 
 		if a.Nullable {
-			n := int8(v.(int))
+			n := int8(i)
 			v = &n
 		} else {
-			v = int8(v.(int))
+			v = int8(i)
 		}
 	case AttrTypeInt16:
-		v, err = strconv.Atoi(string(data))
+		var i int64
+		i, err = strconv.ParseInt(string(data), 10, 16)
 
 		if a.Nullable {
-			n := int16(v.(int))
+			n := int16(i)
 			v = &n
 		} else {
-			v = int16(v.(int))
+			v = int16(i)
 		}
 	case AttrTypeInt32:
-		v, err = strconv.Atoi(string(data))
+		var i int64
+		i, err = strconv.ParseInt(string(data), 10, 32)
 
 		if a.Nullable {
-			n := int32(v.(int))
+			n := int32(i)
 			v = &n
 		} else {
-			v = int32(v.(int))
+			v = int32(i)
 		}
 	case AttrTypeInt64:
 		v, err = strconv.Atoi(string(data))
